@@ -33,6 +33,7 @@ type NodeSpec struct {
 	PreH  string `json:"preh,omitempty"`  // state pre-handler: "", v, s
 	PostH string `json:"posth,omitempty"` // state post-handler: "", v, s
 	PS    bool   `json:"ps,omitempty"`    // body calls ProcessState
+	Alt   bool   `json:"-"`               // model only: perturb the node function (influence analysis)
 }
 
 // Edge is a connection. In graph modes it is a plain AddEdge. In workflow mode:
